@@ -291,6 +291,25 @@ func c15MakeJoinLeave(c *mon.Ctx, r *gen.Rand, sc *simScenario, b *simBranch) {
 	}
 	rb := b.clone()
 	allowedRoom := "!allowed:origin.example"
+	// a member of another server whose name the event parser lets through but that is no valid server name: not a
+	// user of the local server either (joins while the room still lets anybody in)
+	var oddMember gmsl.PDU
+	if cr, pl0 := rb.state[stKey{"m.room.create", ""}], rb.state[stKey{"m.room.power_levels", ""}]; cr != nil && pl0 != nil && s.t.EventIDFormat >= 2 {
+		odd := "@admin:evil_org"
+		authIDs := []string{pl0.EventID()}
+		if !s.t.Domainless {
+			authIDs = append([]string{cr.EventID()}, authIDs...)
+		}
+		eb := s.impl.NewEventBuilderFromProtoEvent(&gmsl.ProtoEvent{SenderID: odd, RoomID: s.roomID, Type: "m.room.member", StateKey: strp(odd), PrevEvents: []string{rb.tip}, AuthEvents: authIDs, Depth: rb.depth + 1,
+			Content: []byte(`{"membership":"join"}`)})
+		oid := serverIdentity("third.example")
+		if ev, err := eb.Build(baseTime, spec.ServerName(oid.Server), gmsl.KeyID(oid.KeyID), oid.Priv); err == nil {
+			// the room's state as the resident server holds it (it got there before identifiers were checked this strictly)
+			oddMember = ev
+			rb.state[stKey{"m.room.member", odd}] = ev
+			s.all[ev.EventID()] = ev
+		}
+	}
 	jrEv, ok := s.propose(rb, "m.room.join_rules", strp(""), s.users[0], ref.O("join_rule", ref.S("restricted"), "allow", ref.A(ref.O("type", ref.S("m.room_membership"), "room_id", ref.S(allowedRoom)))), false)
 	if !ok || jrEv == nil {
 		return
@@ -309,6 +328,7 @@ func c15MakeJoinLeave(c *mon.Ctx, r *gen.Rand, sc *simScenario, b *simBranch) {
 		resident  bool
 		userIn    bool
 		candidate string // local user offered as authoriser ("" = none)
+		oddRemote bool   // the querier also lists a member of another server whose ID is not a well-formed user ID
 	}
 	var cands []string
 	for _, u := range s.users {
@@ -316,9 +336,14 @@ func c15MakeJoinLeave(c *mon.Ctx, r *gen.Rand, sc *simScenario, b *simBranch) {
 			cands = append(cands, u)
 		}
 	}
-	cases := []rcase{{"pending-invite", true, false, false, ""}, {"not-resident", false, false, false, ""}, {"joiner-not-in-allowed-room", false, true, false, ""}, {"no-local-user-listed", false, true, true, ""}}
+	cases := []rcase{{"pending-invite", true, false, false, "", false}, {"not-resident", false, false, false, "", false}, {"joiner-not-in-allowed-room", false, true, false, "", false}, {"no-local-user-listed", false, true, true, "", false}}
 	for _, u := range cands {
-		cases = append(cases, rcase{"candidate:" + u, false, true, true, u})
+		cases = append(cases, rcase{"candidate:" + u, false, true, true, u, false})
+	}
+	// a member of another server whose name the event parser lets through but that is no valid server name: not a
+	// user of the local server either
+	if oddMember != nil {
+		cases = append(cases, rcase{"only-a-remote-member-with-a-malformed-id-listed", false, true, true, "", true})
 	}
 	for _, rcse := range cases {
 		entitled := false
@@ -357,6 +382,10 @@ func c15MakeJoinLeave(c *mon.Ctx, r *gen.Rand, sc *simScenario, b *simBranch) {
 						info.JoinedUsers = append(info.JoinedUsers, rb.state[stKey{"m.room.member", u}])
 					}
 				}
+			}
+			if rcse.oddRemote && oddMember != nil {
+				c.Count("restricted_make_join_calls_with_a_malformed_remote_member")
+				info.JoinedUsers = append([]gmsl.PDU{oddMember}, info.JoinedUsers...)
 			}
 			if rcse.candidate != "" {
 				info.JoinedUsers = append(info.JoinedUsers, rb.state[stKey{"m.room.member", rcse.candidate}])
